@@ -34,6 +34,7 @@ class ClientRun:
         self.handler_cls = handler_cls
         self.auto_reconnect_on_timeout = False
         self.reconnect_in_on_close = False
+        self.adapter = None          # 'rx3' / 'rx4': the application's handler is a delegate behind the Rx / ReactiveX handler adapter
         self.on_close_sleep_ms = 0
         self.slow_on_close_ms = 0
         self.current = -1
@@ -82,7 +83,20 @@ class ClientRun:
                 R.ev('TC:%d' % i)
                 await oc()
             t.close = close
-        c = RSocketClient(self.provider(), handler_factory=H, keep_alive_period=timedelta(milliseconds=self.ka_ms),
+        factory = H
+        if self.adapter:
+            if self.adapter == 'rx3':
+                from rsocket.rx_support.rx_handler import BaseRxHandler as Base
+                from rsocket.rx_support.rx_handler_adapter import rx_handler_factory as wrap
+            else:
+                from rsocket.reactivex.reactivex_handler import BaseReactivexHandler as Base
+                from rsocket.reactivex.reactivex_handler_adapter import reactivex_handler_factory as wrap
+
+            class D(Base):
+                on_keepalive_timeout = H.on_keepalive_timeout
+                on_close = H.on_close
+            factory = wrap(D)
+        c = RSocketClient(self.provider(), handler_factory=factory, keep_alive_period=timedelta(milliseconds=self.ka_ms),
                           max_lifetime_period=timedelta(milliseconds=self.life_ms), **self.client_kw)
         self.client = c
         oconnect, oreset, oclose = c.connect, c._reset_internals, c._close
